@@ -223,7 +223,8 @@ class C16(Campaign):
                    "method / variable names)", "neighbour-definition@op (subclass adding transitions from inherited states)",
                    "second instance of the same class interleaved", "neighbour driven between two events",
                    "instances of one class whose listener objects carry different instance-level callbacks",
-                   "instance of the same class built without the model / listeners that provide its callback names"]
+                   "instance of the same class built without the model / listeners that provide its callback names",
+                   "machine class with value-based __eq__/__hash__ (all instances compare equal)"]
     rule = ("one run = 2-4 programs in one process (unrelated, look-alike in another module, subclass extending "
             "inherited states, second instance of the same class) whose define / instantiate / send operations are "
             "interleaved by the PRNG; for every instance the projection of the interleaved trace (operation results, "
@@ -243,6 +244,7 @@ class C16(Campaign):
         for c, m in base["cbs"].items():
             if rnd.random() < 0.25:
                 m["async"] = True
+        base["machine_eq"] = rnd.random() < 0.15
         async_role = None
         if rnd.random() < 0.15:
             # the only coroutine callbacks of the class live on ONE listener class (naming-convention
